@@ -13,6 +13,7 @@ import (
 
 	"github.com/kelindar/bitmap"
 	"github.com/kelindar/column/commit"
+	"github.com/kelindar/intmap"
 	"github.com/kelindar/smutex"
 	"github.com/klauspost/compress/s2"
 	"github.com/tidwall/btree"
@@ -85,7 +86,7 @@ func vDistinctBacking(a, b any) bool {
 }
 
 // vSameSlice: the two slices are the same view (same position and length) of the same backing array.
-func vSameSlice(a, b []uint64) bool {
+func vSameSlice[T any](a, b []T) bool {
 	return len(a) == len(b) && (len(a) == 0 || &a[0] == &b[0])
 }
 
@@ -235,11 +236,14 @@ func vModelBitmapFilter(dst *bitmap.Bitmap, f func(x uint32) bool) {
 // vLastCount is ghost: the value the last bitmap.Count call returned.
 var vLastCount int
 
+// vCountOf is ghost: the bitmap the last bitmap.Count call counted.
+var vCountOf bitmap.Bitmap
+
 //@ model bitmap.(Bitmap).Count
 func vModelBitmapCount(dst bitmap.Bitmap) int {
 	n := vNondet[int]()
 	vAssume(0 <= n && n <= len(dst)*64)
-	vLastCount = n
+	vLastCount, vCountOf = n, dst
 	return n
 }
 
@@ -503,4 +507,94 @@ func vModelBitmapMin(dst bitmap.Bitmap) (uint32, bool) {
 	vAssume(int(x>>6) < len(dst) && vBit(dst, x))
 	vAssume(vForall(0, len(dst)*64, func(j int) bool { return uint32(j) >= x || !vBit(dst, uint32(j)) }))
 	return x, true
+}
+
+// ---------------------------------------------------------------------------------------------
+// Models used by the known-finding lemmas.
+
+// The aggregation kernels bitmap.Sum/Min/Max(src, filter): results unknown here (assumed contract of the dependency:
+// the aggregate of src[i] over the bits i of filter). Ghost: the data and the filter the kernel was handed.
+var (
+	vKernelFilter bitmap.Bitmap
+	vKernelData   []int64
+	vKernelCalls  int
+	vKernelValue  int64
+	vKernelHit    bool
+)
+
+//@ model bitmap.Sum
+func vModelBitmapSum(src []int64, filter bitmap.Bitmap) int64 {
+	vKernelFilter, vKernelData = filter, src
+	vKernelCalls++
+	vKernelValue = vNondet[int64]()
+	return vKernelValue
+}
+
+//@ model bitmap.Min
+func vModelBitmapMinOf(src []int64, filter bitmap.Bitmap) (int64, bool) {
+	vKernelFilter, vKernelData = filter, src
+	vKernelCalls++
+	vKernelValue, vKernelHit = vNondet[int64](), vNondet[bool]()
+	return vKernelValue, vKernelHit
+}
+
+//@ model bitmap.Max
+func vModelBitmapMaxOf(src []int64, filter bitmap.Bitmap) (int64, bool) {
+	vKernelFilter, vKernelData = filter, src
+	vKernelCalls++
+	vKernelValue, vKernelHit = vNondet[int64](), vNondet[bool]()
+	return vKernelValue, vKernelHit
+}
+
+// bitmap.Clone(into): a copy of the receiver (the real one reuses the backing array of *into; here a fresh array).
+//
+//@ model bitmap.(Bitmap).Clone
+func vModelBitmapClone(dst bitmap.Bitmap, into *bitmap.Bitmap) bitmap.Bitmap {
+	out := make(bitmap.Bitmap, len(dst))
+	copy(out, dst)
+	if into != nil {
+		*into = out
+	}
+	return out
+}
+
+// intmap.Sync as a map from the 32-bit hash to a location (ghost map; one table per contract).
+var vIntmap map[uint32]uint32
+
+//@ model intmap.(*Sync).LoadOrStore
+func vModelIntmapLoadOrStore(m *intmap.Sync, key uint32, fn func() uint32) (uint32, bool) {
+	if v, ok := vIntmap[key]; ok {
+		return v, true
+	}
+	v := fn()
+	vIntmap[key] = v
+	return v, false
+}
+
+// xxh3.Hash: an unknown function of the bytes - in particular NOT injective.
+//
+//@ model xxh3.Hash
+func vModelHash(b []byte) uint64 { return vNondet[uint64]() }
+
+// btree.Scan: calls iter for one arbitrary item of the tree (order and completeness: assumed contract).
+//
+//@ model btree.(*BTreeG).Scan
+func vModelBTreeScan(t *btree.BTreeG[sortIndexItem], iter func(item sortIndexItem) bool) {
+	if vNondet[bool]() {
+		iter(vNondet[sortIndexItem]())
+	}
+}
+
+// columns.Load (an atomic.Value holding the registry): some column, or none. For Ascend the entry is a sorted index.
+//
+//@ model column.(*columns).Load
+func vModelColumnsLoad(c *columns, name string) (*column, bool) {
+	if vNondet[bool]() {
+		return nil, false
+	}
+	col := vNondet[*column]()
+	vAssume(col != nil)
+	si, ok := col.Column.(*columnSortIndex)
+	vAssume(ok && si != nil && si.btree != nil)
+	return col, true
 }
